@@ -201,7 +201,7 @@ PROPS.update({
         claim='Unbounded proof (any memo size, any mutator outcome for the index) that GET-family indices are defined, PUT-family indices are fresh, and no PUT executes on MARK/empty stack.',
         note=_NOTE, assumptions=_CORE_ASSUME),
     'C04': dict(
-        title='Every output is a well-formed opcode stream', verus=['core', 'mutv'], kani_quick=['u7_as_u8_all_kinds'] + U0, kani_thorough=U8_THOROUGH, scans=['textformats', 'stdlibdata'], level='proof',
+        title='Every output is a well-formed opcode stream', verus=['core', 'mutv'], kani_quick=['u7_as_u8_all_kinds'] + U0, kani_thorough=U8_THOROUGH, scans=['textformats', 'stdlibdata', 'clifwd'], level='proof',
         technique='Verus contracts: every emitter (all emit_and_process arms, emit_int/emit_string/emit_bytes/emit_global, emit_opcode, emit_proto, the FRAME patch) appends exactly one opcode whose bytes satisfy a hand-written wire-format predicate per argument class; Kani for the post-emission rewrite',
         claim='Safe mode: unbounded proof that each emission is exactly one well-formed opcode under the CPython table (known byte, complete argument, length prefix == payload length, '
               'EXT codes >= 1 under the signed reader, memo index non-negative) and that the output is header + these chunks + collapse tail + one final STOP. '
@@ -222,7 +222,7 @@ PROPS.update({
         note=_NOTE + ' Table content is assumed in Verus and proved exactly equal to the CPython vocabulary by the Kani harness u7_tables_exact; the protocol-0 7-bit-ASCII clause for payload bytes is not covered yet.',
         assumptions=_CORE_ASSUME),
     'C06': dict(
-        title='FRAME unique, leads the body, spans exactly the rest', verus=['core', 'mutv'], kani_quick=U0, kani_thorough=U8_THOROUGH, level='proof',
+        title='FRAME unique, leads the body, spans exactly the rest', verus=['core', 'mutv'], kani_quick=U0, kani_thorough=U8_THOROUGH, scans=['clifwd'], level='proof',
         technique='Verus contract on generate_internal (FRAME back-patch arithmetic and position), can_emit(Frame)=false, unreachable Frame emitter arm; Kani frame clause of the type-confusion rewrite',
         claim='Safe mode: proof that FRAME occurs only for P >= 4, at byte offset 2, with length == total length - 11, and that no body/tail opcode is FRAME. '
               'Any mode incl. unsafe mutations: generate_internal_u proves the same FRAME clauses with the emitters\' any-mode contracts (rewrites never touch bytes before the '
